@@ -556,6 +556,25 @@ func writeEvidence(rep *Report, verif string, db *ContractDB, nObs, discharged, 
 		for _, e := range ext {
 			assum = append(assum, "trusted external contract: "+e)
 		}
+		var nb, elsewhere []string
+		for k, fc := range db.Funcs {
+			if !fc.Used || fc.Extern {
+				continue
+			}
+			if fc.NoBody {
+				nb = append(nb, shortKey(k))
+			} else if !hasProp(fc.Props, rep.Prop) && !clauseHasProp(fc, rep.Prop) && !fc.Inline {
+				elsewhere = append(elsewhere, shortKey(k)+" ("+strings.Join(fc.Props, ",")+")")
+			}
+		}
+		sort.Strings(nb)
+		sort.Strings(elsewhere)
+		for _, e := range nb {
+			assum = append(assum, "trusted contract, body not verified (nobody): "+e)
+		}
+		if len(elsewhere) > 0 {
+			assum = append(assum, "callee contracts used here whose bodies are discharged by the checks of other properties: "+strings.Join(elsewhere, "; "))
+		}
 		var pp []string
 		for p := range db.PurePkg {
 			pp = append(pp, p)
